@@ -90,10 +90,11 @@ def schedules(run, calls, segs, limit, seed):
                         "distinct_states": r.distinct, "interleavings": n, "wall_s": round(r.wall, 1)})
     run.states += r.distinct; run.transitions += r.generated
     out = []
-    for m in re.finditer(r'<<"SCHED", <<([\d, \n]*)>>>>', r.out):
+    for m in re.finditer(r'<<\s*"SCHED",\s*<<([\d,\s]*)>>\s*>>', r.out):       # TLC wraps long tuples over lines
         s = [int(x) for x in m.group(1).replace("\n", " ").split(",") if x.strip()]
         if s and s not in out: out.append(s)
-    if not out: raise Infra("Gen_Runtime produced no schedule:\n" + r.out[-2000:])
+    if not out or r.out.count('"SCHED"') != len(re.findall(r'<<\s*"SCHED",\s*<<([\d,\s]*)>>\s*>>', r.out)):
+        raise Infra("Gen_Runtime schedules not parsed:\n" + r.out[-2000:])
     if len(out) > limit:
         rnd = random.Random(seed); keep = out[:1] + out[-1:] + rnd.sample(out[1:-1], limit - 2)
         out = keep
